@@ -226,7 +226,16 @@ structure PKStored (P F : Type) where
 def writePK (c : Codec P) (fc : FCodec F) (version : UInt8) (fmt : Format) (pk : PKStored P F) : Bytes :=
   writeVK c version fmt pk.vk ++ writePolyVec fc pk.fixedValues ++ writePolyVec fc pk.permutations
 
-/-- `plonk/mod.rs: ProvingKey::read`, stored part. -/
+/-- The check `ProvingKey::read` / `permutation::ProvingKey::read` make on a polynomial list
+read from the file: `list.len() != count || list.iter().any(|poly| poly.len() != n)` is an
+`InvalidData` error. -/
+def polysFit (n count : Nat) (ps : List (List F)) : Bool :=
+  ps.length == count && ps.all (fun p => p.length == n)
+
+/-- `plonk/mod.rs: ProvingKey::read`, stored part: the verifying key, the fixed columns (as many
+as the key has fixed commitments, each of `2^k` values), the permutation polynomials
+(`permutation.rs: ProvingKey::read`: as many as the circuit has permutation columns, each of
+`2^k` values); a list that does not fit is refused before anything is computed from it. -/
 def readPK (c : Codec P) (fc : FCodec F) (version : UInt8) (fmt : Format) (sh : Shape) (bs : Bytes) :
     Except Err (PKStored P F × Bytes) :=
   match readVK c version fmt sh bs with
@@ -235,9 +244,11 @@ def readPK (c : Codec P) (fc : FCodec F) (version : UInt8) (fmt : Format) (sh : 
     match readPolyVec fc fmt r1 with
     | .error e => .error e
     | .ok (fv, r2) =>
+      if !polysFit (2 ^ vk.k) vk.fixed.length fv then .error .shape else
       match readPolyVec fc fmt r2 with
       | .error e => .error e
-      | .ok (pm, r3) => .ok (⟨vk, fv, pm⟩, r3)
+      | .ok (pm, r3) =>
+        if !polysFit (2 ^ vk.k) sh.nPerm pm then .error .shape else .ok (⟨vk, fv, pm⟩, r3)
 
 /-- The whole proving key: stored part plus everything `ProvingKey::read` recomputes.
 `toCoeff = domain.lagrange_to_coeff`, `toExt = domain.coeff_to_extended`,
